@@ -41,25 +41,33 @@ theorem ninv_idle {s s' : State} {a : ActorId} {c : Choice} (bnd : Bnd s) (lv : 
   conc_split hs
   all_goals (
     refine ⟨fun p hp => ?_, fun b => ?_, fun t ht p hp => ?_, fun r hr p hp => ?_⟩
-    · have := n0 p
-      clear n0 n1 n2 n3
-      (try log2_simp_at hp); grind [Named.mono, Named.last]
-    · have := n1 b
+    · first
+      | exact n0 p hp
+      | (have := n0 p
+         clear n0 n1 n2 n3
+         (try log2_simp_at hp); grind [Named.mono, Named.last])
+    · have hn1b := n1 b
       clear n1 n2 n3
       by_cases hba : b = a
       · subst hba; (try log2_simp); grind [Named.mono, Named.last]
       · have hab : ¬ a = b := fun h => hba h.symm
         try simp only [State.put, State.putS, State.finish, State.write, upd_apply, if_neg hba, if_neg hab]
-        (try log2_simp); grind [Named.mono, Named.last]
-    · have := n2 t
-      clear n0 n1 n2 n3
-      (try log2_simp_at ht)
-      (try log2_simp_at hp); grind [Named.mono, Named.last]
-    · have := n3 r
-      have := n2
-      clear n0 n1 n2 n3
-      (try log2_simp_at hr)
-      (try log2_simp_at hp); grind [Named.mono, Named.last])
+        first
+        | exact hn1b
+        | ((try log2_simp); grind [Named.mono, Named.last])
+    · first
+      | exact n2 t ht p hp
+      | (have := n2 t
+         clear n0 n1 n2 n3
+         (try log2_simp_at ht)
+         (try log2_simp_at hp); grind [Named.mono, Named.last])
+    · first
+      | exact n3 r hr p hp
+      | (have := n3 r
+         have := n2
+         clear n0 n1 n2 n3
+         (try log2_simp_at hr)
+         (try log2_simp_at hp); grind [Named.mono, Named.last]))
 
 set_option maxHeartbeats 1000000 in
 theorem ninv_begin {s s' : State} {a : ActorId} {c : Choice} (bnd : Bnd s) (lv : Linv s) (g : Ninv s)
@@ -74,25 +82,33 @@ theorem ninv_begin {s s' : State} {a : ActorId} {c : Choice} (bnd : Bnd s) (lv :
   conc_split hs
   all_goals (
     refine ⟨fun p hp => ?_, fun b => ?_, fun t ht p hp => ?_, fun r hr p hp => ?_⟩
-    · have := n0 p
-      clear n0 n1 n2 n3
-      (try log2_simp_at hp); grind [Named.mono, Named.last]
-    · have := n1 b
+    · first
+      | exact n0 p hp
+      | (have := n0 p
+         clear n0 n1 n2 n3
+         (try log2_simp_at hp); grind [Named.mono, Named.last])
+    · have hn1b := n1 b
       clear n1 n2 n3
       by_cases hba : b = a
       · subst hba; (try log2_simp); grind [Named.mono, Named.last]
       · have hab : ¬ a = b := fun h => hba h.symm
         try simp only [State.put, State.putS, State.finish, State.write, upd_apply, if_neg hba, if_neg hab]
-        (try log2_simp); grind [Named.mono, Named.last]
-    · have := n2 t
-      clear n0 n1 n2 n3
-      (try log2_simp_at ht)
-      (try log2_simp_at hp); grind [Named.mono, Named.last]
-    · have := n3 r
-      have := n2
-      clear n0 n1 n2 n3
-      (try log2_simp_at hr)
-      (try log2_simp_at hp); grind [Named.mono, Named.last])
+        first
+        | exact hn1b
+        | ((try log2_simp); grind [Named.mono, Named.last])
+    · first
+      | exact n2 t ht p hp
+      | (have := n2 t
+         clear n0 n1 n2 n3
+         (try log2_simp_at ht)
+         (try log2_simp_at hp); grind [Named.mono, Named.last])
+    · first
+      | exact n3 r hr p hp
+      | (have := n3 r
+         have := n2
+         clear n0 n1 n2 n3
+         (try log2_simp_at hr)
+         (try log2_simp_at hp); grind [Named.mono, Named.last]))
 
 set_option maxHeartbeats 1000000 in
 theorem ninv_commit {s s' : State} {a : ActorId} {c : Choice} (bnd : Bnd s) (lv : Linv s) (g : Ninv s)
@@ -107,25 +123,33 @@ theorem ninv_commit {s s' : State} {a : ActorId} {c : Choice} (bnd : Bnd s) (lv 
   conc_split hs
   all_goals (
     refine ⟨fun p hp => ?_, fun b => ?_, fun t ht p hp => ?_, fun r hr p hp => ?_⟩
-    · have := n0 p
-      clear n0 n1 n2 n3
-      (try log2_simp_at hp); grind [Named.mono, Named.last]
-    · have := n1 b
+    · first
+      | exact n0 p hp
+      | (have := n0 p
+         clear n0 n1 n2 n3
+         (try log2_simp_at hp); grind [Named.mono, Named.last])
+    · have hn1b := n1 b
       clear n1 n2 n3
       by_cases hba : b = a
       · subst hba; (try log2_simp); grind [Named.mono, Named.last]
       · have hab : ¬ a = b := fun h => hba h.symm
         try simp only [State.put, State.putS, State.finish, State.write, upd_apply, if_neg hba, if_neg hab]
-        (try log2_simp); grind [Named.mono, Named.last]
-    · have := n2 t
-      clear n0 n1 n2 n3
-      (try log2_simp_at ht)
-      (try log2_simp_at hp); grind [Named.mono, Named.last]
-    · have := n3 r
-      have := n2
-      clear n0 n1 n2 n3
-      (try log2_simp_at hr)
-      (try log2_simp_at hp); grind [Named.mono, Named.last])
+        first
+        | exact hn1b
+        | ((try log2_simp); grind [Named.mono, Named.last])
+    · first
+      | exact n2 t ht p hp
+      | (have := n2 t
+         clear n0 n1 n2 n3
+         (try log2_simp_at ht)
+         (try log2_simp_at hp); grind [Named.mono, Named.last])
+    · first
+      | exact n3 r hr p hp
+      | (have := n3 r
+         have := n2
+         clear n0 n1 n2 n3
+         (try log2_simp_at hr)
+         (try log2_simp_at hp); grind [Named.mono, Named.last]))
 
 set_option maxHeartbeats 1000000 in
 theorem ninv_abort {s s' : State} {a : ActorId} {c : Choice} (bnd : Bnd s) (lv : Linv s) (g : Ninv s)
@@ -140,25 +164,33 @@ theorem ninv_abort {s s' : State} {a : ActorId} {c : Choice} (bnd : Bnd s) (lv :
   conc_split hs
   all_goals (
     refine ⟨fun p hp => ?_, fun b => ?_, fun t ht p hp => ?_, fun r hr p hp => ?_⟩
-    · have := n0 p
-      clear n0 n1 n2 n3
-      (try log2_simp_at hp); grind [Named.mono, Named.last]
-    · have := n1 b
+    · first
+      | exact n0 p hp
+      | (have := n0 p
+         clear n0 n1 n2 n3
+         (try log2_simp_at hp); grind [Named.mono, Named.last])
+    · have hn1b := n1 b
       clear n1 n2 n3
       by_cases hba : b = a
       · subst hba; (try log2_simp); grind [Named.mono, Named.last]
       · have hab : ¬ a = b := fun h => hba h.symm
         try simp only [State.put, State.putS, State.finish, State.write, upd_apply, if_neg hba, if_neg hab]
-        (try log2_simp); grind [Named.mono, Named.last]
-    · have := n2 t
-      clear n0 n1 n2 n3
-      (try log2_simp_at ht)
-      (try log2_simp_at hp); grind [Named.mono, Named.last]
-    · have := n3 r
-      have := n2
-      clear n0 n1 n2 n3
-      (try log2_simp_at hr)
-      (try log2_simp_at hp); grind [Named.mono, Named.last])
+        first
+        | exact hn1b
+        | ((try log2_simp); grind [Named.mono, Named.last])
+    · first
+      | exact n2 t ht p hp
+      | (have := n2 t
+         clear n0 n1 n2 n3
+         (try log2_simp_at ht)
+         (try log2_simp_at hp); grind [Named.mono, Named.last])
+    · first
+      | exact n3 r hr p hp
+      | (have := n3 r
+         have := n2
+         clear n0 n1 n2 n3
+         (try log2_simp_at hr)
+         (try log2_simp_at hp); grind [Named.mono, Named.last]))
 
 set_option maxHeartbeats 1000000 in
 theorem ninv_after {s s' : State} {a : ActorId} {c : Choice} (bnd : Bnd s) (lv : Linv s) (g : Ninv s)
@@ -173,25 +205,33 @@ theorem ninv_after {s s' : State} {a : ActorId} {c : Choice} (bnd : Bnd s) (lv :
   conc_split hs
   all_goals (
     refine ⟨fun p hp => ?_, fun b => ?_, fun t ht p hp => ?_, fun r hr p hp => ?_⟩
-    · have := n0 p
-      clear n0 n1 n2 n3
-      (try log2_simp_at hp); grind [Named.mono, Named.last]
-    · have := n1 b
+    · first
+      | exact n0 p hp
+      | (have := n0 p
+         clear n0 n1 n2 n3
+         (try log2_simp_at hp); grind [Named.mono, Named.last])
+    · have hn1b := n1 b
       clear n1 n2 n3
       by_cases hba : b = a
       · subst hba; (try log2_simp); grind [Named.mono, Named.last]
       · have hab : ¬ a = b := fun h => hba h.symm
         try simp only [State.put, State.putS, State.finish, State.write, upd_apply, if_neg hba, if_neg hab]
-        (try log2_simp); grind [Named.mono, Named.last]
-    · have := n2 t
-      clear n0 n1 n2 n3
-      (try log2_simp_at ht)
-      (try log2_simp_at hp); grind [Named.mono, Named.last]
-    · have := n3 r
-      have := n2
-      clear n0 n1 n2 n3
-      (try log2_simp_at hr)
-      (try log2_simp_at hp); grind [Named.mono, Named.last])
+        first
+        | exact hn1b
+        | ((try log2_simp); grind [Named.mono, Named.last])
+    · first
+      | exact n2 t ht p hp
+      | (have := n2 t
+         clear n0 n1 n2 n3
+         (try log2_simp_at ht)
+         (try log2_simp_at hp); grind [Named.mono, Named.last])
+    · first
+      | exact n3 r hr p hp
+      | (have := n3 r
+         have := n2
+         clear n0 n1 n2 n3
+         (try log2_simp_at hr)
+         (try log2_simp_at hp); grind [Named.mono, Named.last]))
 
 set_option maxHeartbeats 1000000 in
 theorem ninv_use {s s' : State} {a : ActorId} {c : Choice} (bnd : Bnd s) (lv : Linv s) (g : Ninv s)
@@ -206,25 +246,33 @@ theorem ninv_use {s s' : State} {a : ActorId} {c : Choice} (bnd : Bnd s) (lv : L
   conc_split hs
   all_goals (
     refine ⟨fun p hp => ?_, fun b => ?_, fun t ht p hp => ?_, fun r hr p hp => ?_⟩
-    · have := n0 p
-      clear n0 n1 n2 n3
-      (try log2_simp_at hp); grind [Named.mono, Named.last]
-    · have := n1 b
+    · first
+      | exact n0 p hp
+      | (have := n0 p
+         clear n0 n1 n2 n3
+         (try log2_simp_at hp); grind [Named.mono, Named.last])
+    · have hn1b := n1 b
       clear n1 n2 n3
       by_cases hba : b = a
       · subst hba; (try log2_simp); grind [Named.mono, Named.last]
       · have hab : ¬ a = b := fun h => hba h.symm
         try simp only [State.put, State.putS, State.finish, State.write, upd_apply, if_neg hba, if_neg hab]
-        (try log2_simp); grind [Named.mono, Named.last]
-    · have := n2 t
-      clear n0 n1 n2 n3
-      (try log2_simp_at ht)
-      (try log2_simp_at hp); grind [Named.mono, Named.last]
-    · have := n3 r
-      have := n2
-      clear n0 n1 n2 n3
-      (try log2_simp_at hr)
-      (try log2_simp_at hp); grind [Named.mono, Named.last])
+        first
+        | exact hn1b
+        | ((try log2_simp); grind [Named.mono, Named.last])
+    · first
+      | exact n2 t ht p hp
+      | (have := n2 t
+         clear n0 n1 n2 n3
+         (try log2_simp_at ht)
+         (try log2_simp_at hp); grind [Named.mono, Named.last])
+    · first
+      | exact n3 r hr p hp
+      | (have := n3 r
+         have := n2
+         clear n0 n1 n2 n3
+         (try log2_simp_at hr)
+         (try log2_simp_at hp); grind [Named.mono, Named.last]))
 
 set_option maxHeartbeats 1000000 in
 theorem ninv_sess {s s' : State} {a : ActorId} {c : Choice} (bnd : Bnd s) (lv : Linv s) (g : Ninv s)
@@ -239,25 +287,33 @@ theorem ninv_sess {s s' : State} {a : ActorId} {c : Choice} (bnd : Bnd s) (lv : 
   conc_split hs
   all_goals (
     refine ⟨fun p hp => ?_, fun b => ?_, fun t ht p hp => ?_, fun r hr p hp => ?_⟩
-    · have := n0 p
-      clear n0 n1 n2 n3
-      (try log2_simp_at hp); grind [Named.mono, Named.last]
-    · have := n1 b
+    · first
+      | exact n0 p hp
+      | (have := n0 p
+         clear n0 n1 n2 n3
+         (try log2_simp_at hp); grind [Named.mono, Named.last])
+    · have hn1b := n1 b
       clear n1 n2 n3
       by_cases hba : b = a
       · subst hba; (try log2_simp); grind [Named.mono, Named.last]
       · have hab : ¬ a = b := fun h => hba h.symm
         try simp only [State.put, State.putS, State.finish, State.write, upd_apply, if_neg hba, if_neg hab]
-        (try log2_simp); grind [Named.mono, Named.last]
-    · have := n2 t
-      clear n0 n1 n2 n3
-      (try log2_simp_at ht)
-      (try log2_simp_at hp); grind [Named.mono, Named.last]
-    · have := n3 r
-      have := n2
-      clear n0 n1 n2 n3
-      (try log2_simp_at hr)
-      (try log2_simp_at hp); grind [Named.mono, Named.last])
+        first
+        | exact hn1b
+        | ((try log2_simp); grind [Named.mono, Named.last])
+    · first
+      | exact n2 t ht p hp
+      | (have := n2 t
+         clear n0 n1 n2 n3
+         (try log2_simp_at ht)
+         (try log2_simp_at hp); grind [Named.mono, Named.last])
+    · first
+      | exact n3 r hr p hp
+      | (have := n3 r
+         have := n2
+         clear n0 n1 n2 n3
+         (try log2_simp_at hr)
+         (try log2_simp_at hp); grind [Named.mono, Named.last]))
 
 set_option maxHeartbeats 1000000 in
 theorem ninv_close {s s' : State} {a : ActorId} {c : Choice} (bnd : Bnd s) (lv : Linv s) (g : Ninv s)
@@ -272,25 +328,33 @@ theorem ninv_close {s s' : State} {a : ActorId} {c : Choice} (bnd : Bnd s) (lv :
   conc_split hs
   all_goals (
     refine ⟨fun p hp => ?_, fun b => ?_, fun t ht p hp => ?_, fun r hr p hp => ?_⟩
-    · have := n0 p
-      clear n0 n1 n2 n3
-      (try log2_simp_at hp); grind [Named.mono, Named.last]
-    · have := n1 b
+    · first
+      | exact n0 p hp
+      | (have := n0 p
+         clear n0 n1 n2 n3
+         (try log2_simp_at hp); grind [Named.mono, Named.last])
+    · have hn1b := n1 b
       clear n1 n2 n3
       by_cases hba : b = a
       · subst hba; (try log2_simp); grind [Named.mono, Named.last]
       · have hab : ¬ a = b := fun h => hba h.symm
         try simp only [State.put, State.putS, State.finish, State.write, upd_apply, if_neg hba, if_neg hab]
-        (try log2_simp); grind [Named.mono, Named.last]
-    · have := n2 t
-      clear n0 n1 n2 n3
-      (try log2_simp_at ht)
-      (try log2_simp_at hp); grind [Named.mono, Named.last]
-    · have := n3 r
-      have := n2
-      clear n0 n1 n2 n3
-      (try log2_simp_at hr)
-      (try log2_simp_at hp); grind [Named.mono, Named.last])
+        first
+        | exact hn1b
+        | ((try log2_simp); grind [Named.mono, Named.last])
+    · first
+      | exact n2 t ht p hp
+      | (have := n2 t
+         clear n0 n1 n2 n3
+         (try log2_simp_at ht)
+         (try log2_simp_at hp); grind [Named.mono, Named.last])
+    · first
+      | exact n3 r hr p hp
+      | (have := n3 r
+         have := n2
+         clear n0 n1 n2 n3
+         (try log2_simp_at hr)
+         (try log2_simp_at hp); grind [Named.mono, Named.last]))
 
 set_option maxHeartbeats 1000000 in
 theorem ninv_exp {s s' : State} {a : ActorId} {c : Choice} (bnd : Bnd s) (lv : Linv s) (g : Ninv s)
@@ -305,24 +369,32 @@ theorem ninv_exp {s s' : State} {a : ActorId} {c : Choice} (bnd : Bnd s) (lv : L
   conc_split hs
   all_goals (
     refine ⟨fun p hp => ?_, fun b => ?_, fun t ht p hp => ?_, fun r hr p hp => ?_⟩
-    · have := n0 p
-      clear n0 n1 n2 n3
-      (try log2_simp_at hp); grind [Named.mono, Named.last]
-    · have := n1 b
+    · first
+      | exact n0 p hp
+      | (have := n0 p
+         clear n0 n1 n2 n3
+         (try log2_simp_at hp); grind [Named.mono, Named.last])
+    · have hn1b := n1 b
       clear n1 n2 n3
       by_cases hba : b = a
       · subst hba; (try log2_simp); grind [Named.mono, Named.last]
       · have hab : ¬ a = b := fun h => hba h.symm
         try simp only [State.put, State.putS, State.finish, State.write, upd_apply, if_neg hba, if_neg hab]
-        (try log2_simp); grind [Named.mono, Named.last]
-    · have := n2 t
-      clear n0 n1 n2 n3
-      (try log2_simp_at ht)
-      (try log2_simp_at hp); grind [Named.mono, Named.last]
-    · have := n3 r
-      have := n2
-      clear n0 n1 n2 n3
-      (try log2_simp_at hr)
-      (try log2_simp_at hp); grind [Named.mono, Named.last])
+        first
+        | exact hn1b
+        | ((try log2_simp); grind [Named.mono, Named.last])
+    · first
+      | exact n2 t ht p hp
+      | (have := n2 t
+         clear n0 n1 n2 n3
+         (try log2_simp_at ht)
+         (try log2_simp_at hp); grind [Named.mono, Named.last])
+    · first
+      | exact n3 r hr p hp
+      | (have := n3 r
+         have := n2
+         clear n0 n1 n2 n3
+         (try log2_simp_at hr)
+         (try log2_simp_at hp); grind [Named.mono, Named.last]))
 
 end Lungo.Conc
